@@ -191,7 +191,7 @@ func c15InotifyTranslate(c *core.Ctx) {
 func maskStr(m uint32) string {
 	names := map[uint32]string{unix.IN_ACCESS: "ACCESS", unix.IN_MODIFY: "MODIFY", unix.IN_ATTRIB: "ATTRIB", unix.IN_CLOSE_WRITE: "CLOSE_WRITE", unix.IN_CLOSE_NOWRITE: "CLOSE_NOWRITE",
 		unix.IN_OPEN: "OPEN", unix.IN_MOVED_FROM: "MOVED_FROM", unix.IN_MOVED_TO: "MOVED_TO", unix.IN_CREATE: "CREATE", unix.IN_DELETE: "DELETE", unix.IN_DELETE_SELF: "DELETE_SELF",
-		unix.IN_MOVE_SELF: "MOVE_SELF", unix.IN_UNMOUNT: "UNMOUNT", unix.IN_Q_OVERFLOW: "Q_OVERFLOW", unix.IN_IGNORED: "IGNORED", unix.IN_ISDIR: "ISDIR", unix.IN_DONT_FOLLOW: "DONT_FOLLOW", unix.IN_MASK_ADD: "MASK_ADD"}
+		unix.IN_MOVE_SELF: "MOVE_SELF", unix.IN_UNMOUNT: "UNMOUNT", unix.IN_Q_OVERFLOW: "Q_OVERFLOW", unix.IN_IGNORED: "IGNORED", unix.IN_ISDIR: "ISDIR", unix.IN_DONT_FOLLOW: "DONT_FOLLOW", unix.IN_MASK_ADD: "MASK_ADD", unix.IN_EXCL_UNLINK: "EXCL_UNLINK", unix.IN_ONESHOT: "ONESHOT", unix.IN_ONLYDIR: "ONLYDIR"}
 	var p []string
 	for b := uint32(1); b != 0; b <<= 1 {
 		if m&b != 0 {
@@ -289,8 +289,8 @@ func c15InotifyRequest(c *core.Ctx) {
 					c.Broken(fmt.Sprintf("expected exactly one kernel mark, found %d", marks))
 					return
 				}
-				// the kernel stores the event bits plus its own IN_EXCL_UNLINK/ONLYDIR flags; DONT_FOLLOW/MASK_ADD are not stored
-				got &= unix.IN_ALL_EVENTS
+				// fdinfo shows the event bits plus IN_EXCL_UNLINK / IN_ONESHOT when they were asked for (these change
+				// what is reported, so they count as "unrelated flags"); IN_ONLYDIR/DONT_FOLLOW/MASK_ADD are not stored
 				if got != want {
 					nv++
 					if nv < 6 {
@@ -426,7 +426,7 @@ func allMasks(fd int) []uint32 {
 		for _, f := range strings.Fields(ln)[1:] {
 			if strings.HasPrefix(f, "mask:") {
 				v, _ := strconv.ParseUint(f[5:], 16, 64)
-				l = append(l, uint32(v)&unix.IN_ALL_EVENTS)
+				l = append(l, uint32(v)) // event bits, plus IN_EXCL_UNLINK/IN_ONESHOT if requested
 			}
 		}
 	}
